@@ -234,9 +234,10 @@ def apply_repo(w, e, fi, clsbind, args, kwargs, s):
         return outs
     argterms = tuple(mp[n] for n in order)
     callterm = CallT(callee, argterms)
-    sm = w.eng.summary(fi, clsbind_eff)
-    pmap = {P(n): mp[n] for n in order}
+    w.eng.callee_index[callee] = (fi, clsbind_eff, tuple(order))
     mode = "inline" if (fi.qualname in w.inline or callee in w.inline) else "grouped"
+    sm = w.eng.summary(fi, clsbind_eff, w.inline if mode == "inline" else frozenset())
+    pmap = {P(n): mp[n] for n in order}
 
     # already decided on this path (pure re-evaluation)
     for cv in (True, False):
@@ -262,7 +263,8 @@ def apply_repo(w, e, fi, clsbind, args, kwargs, s):
                 x = p.value
                 s1.add(("notok", callterm))
                 s1.ev("call", site, callee, argterms, (), ("raise", x.exc))
-                outs.append((s1, "raise", Exc(x.exc, (site,) + x.chain, [("notok", callterm)], x.origin, x.why)))
+                keep = [c2 for c2 in (subst(c, pmap) for c in conds) if is_param_rooted(c2)]
+                outs.append((s1, "raise", Exc(x.exc, (site,) + x.chain, [("notok", callterm)] + keep, x.origin, x.why)))
             else:
                 v = subst(p.value, pmap) if is_param_rooted(p.value) else callterm
                 s1.add(("ok", callterm))
@@ -289,7 +291,7 @@ def apply_repo(w, e, fi, clsbind, args, kwargs, s):
             s1 = s.copy()
             s1.add(("notok", callterm))
             s1.ev("call", site, callee, argterms, (), ("raise", x.exc))
-            outs.append((s1, "raise", Exc(x.exc, (site,) + x.chain, [("notok", callterm)], x.origin, x.why)))
+            outs.append((s1, "raise", Exc(x.exc, (site,) + x.chain, [("notok", callterm)] + [c for c in allc if is_param_rooted(c)], x.origin, x.why)))
     for rk, g in sm.groups.items():
         facts = [subst(f, pmap) for f in g["facts"]]
         if any(s.contradicts(f) for f in facts if f[0] != "imp"):
@@ -338,6 +340,8 @@ COND_KINDS = {
     "isnot",
     "nonempty",
     "integral",
+    "hasattr",
+    "nohasattr",
 }
 
 
